@@ -292,8 +292,13 @@ def conclude(pid, tier, seed, insts, wall, workdir, extra):
         "violations": len(vio_lines),
     }
     ev["coverage"].update(extra.get("coverage", {}))
-    os.makedirs(os.path.join(VERIF, "evidence"), exist_ok=True)
-    json.dump(ev, open(os.path.join(VERIF, "evidence", pid + ".json"), "w"), indent=1)
+    # evidence/ only ever describes runs against /repo itself; trials against a
+    # scratch worktree (VF_REPO) write elsewhere
+    evdir = os.path.join(VERIF, "evidence") if core.REPO == "/repo" else os.path.join(core.BUILD_ROOT, "trial-evidence")
+    os.makedirs(evdir, exist_ok=True)
+    ev["coverage"]["repo"] = core.REPO
+    ev["coverage"]["repo_head"] = repo_head()
+    json.dump(ev, open(os.path.join(evdir, pid + ".json"), "w"), indent=1)
     for l in known_lines:
         print(l)
     for l in vio_lines:
